@@ -84,5 +84,6 @@ Section FS.
     absolute lit = true -> open_ cwd1 (resolved_path sp1 lit) = open_ cwd2 (resolved_path sp2 lit).
   Proof. intros H. unfold resolved_path. rewrite H. unfold open_, locate_dir, start. rewrite H. reflexivity. Qed.
 End FS.
+Arguments walk_app {dir} up child d xs ys.
 Print Assumptions C17_cwd_independent.
 Print Assumptions C17_absolute.
